@@ -18,6 +18,7 @@ import (
 	"fmt"
 	"net/netip"
 	"slices"
+	"strings"
 	"time"
 
 	"github.com/mdlayher/corerad/internal/plugin"
@@ -181,6 +182,11 @@ func parseDNSSL(d rawDNSSL, maxInterval time.Duration) (*plugin.DNSSL, error) {
 	for _, d := range d.DomainNames {
 		if d == "" {
 			return nil, errors.New("domain names must not be empty")
+		}
+		if strings.HasPrefix(d, ".") || strings.HasSuffix(d, ".") || strings.Contains(d, "..") {
+			// An empty label ends the encoded name, so whatever follows it
+			// would be lost or misread on the wire.
+			return nil, fmt.Errorf("domain name %q must not contain empty labels (write it without a trailing dot)", d)
 		}
 
 		if _, ok := seen[d]; ok {
